@@ -165,6 +165,8 @@ func genFixture(r *core.Run) *fixture {
 // ---------------------------------------------------------------------------------
 // read-only operations
 
+const aliasingMarker = "ALIASING DETECTED:"
+
 type operation struct {
 	name string
 	run  func() string
@@ -225,6 +227,27 @@ func (f *fixture) operations() []operation {
 			sb.Write(b)
 		}
 		return sb.String()
+	})
+	add("Policy.MarshalCedar/JSON (outputs held across calls)", func() string {
+		// the byte slices a caller received must stay what they were while it (or another
+		// goroutine) keeps marshalling
+		var held [][]byte
+		var copies []string
+		for _, p := range f.pols {
+			o := p.MarshalCedar()
+			held, copies = append(held, o), append(copies, string(o))
+			if j, err := p.MarshalJSON(); err == nil {
+				held, copies = append(held, j), append(copies, string(j))
+			}
+		}
+		o := f.ps.MarshalCedar()
+		held, copies = append(held, o), append(copies, string(o))
+		for i := range held {
+			if string(held[i]) != copies[i] {
+				return fmt.Sprintf("%s output %d was overwritten while held: %q, was %q", aliasingMarker, i, held[i], copies[i])
+			}
+		}
+		return strings.Join(copies, "|")
 	})
 	add("Encoder.Encode (all)", func() string {
 		var buf bytes.Buffer
@@ -420,6 +443,9 @@ func (p Prop) immutability(r *core.Run, f *fixture, ops []operation, roots []any
 		})
 		res := op.run()
 		sim.OnYield(nil)
+		if strings.HasPrefix(res, aliasingMarker) {
+			return viol("output-aliased", "output-aliased:"+op.name, "%s", res)
+		}
 		r.Obs(op.name, res)
 		r.Logf("op %d: %s -> %d bytes, %d yields", i+1, op.name, len(res), count)
 		if v != nil {
@@ -508,6 +534,9 @@ func (p Prop) interleaving(r *core.Run, f *fixture, ops []operation, roots []any
 				inOp[t] = false
 				ev.ret = sc.Seq()
 				hist = append(hist, ev)
+				if strings.HasPrefix(res, aliasingMarker) && v == nil {
+					v = viol("output-aliased", "output-aliased:"+op.name, "task %d: %s", t, res)
+				}
 				if res != solo[t][i] && v == nil {
 					v = viol("result-differs-under-interleaving", "result-differs:"+op.name, "task %d: %s returned a different result when interleaved with other read-only calls\n  solo:        %s\n  interleaved: %s", t, op.name, clip(solo[t][i]), clip(res))
 				}
